@@ -45,7 +45,7 @@ from . import sources as S  # noqa: E402
 
 warnings.filterwarnings("ignore")
 
-PL_TYPES = {"int32": pl.Int32, "int8": pl.Int8, "uint16": pl.UInt16, "float32": pl.Float32, "int": pl.Int64, "bool": pl.Boolean, "str": pl.String, "float": pl.Float64, "date": pl.Date, "datetime": pl.Datetime("us")}
+PL_TYPES = {"int32": pl.Int32, "int8": pl.Int8, "uint16": pl.UInt16, "uint64": pl.UInt64, "float32": pl.Float32, "int": pl.Int64, "bool": pl.Boolean, "str": pl.String, "float": pl.Float64, "date": pl.Date, "datetime": pl.Datetime("us")}
 PDT_TYPES = {"int": pdt.Int64, "bool": pdt.Bool, "str": pdt.String, "float": pdt.Float64, "date": pdt.Date, "datetime": pdt.Datetime}
 
 
